@@ -786,8 +786,14 @@ fn main() {
                 "yaml" => yaml_nest(d),
                 _ => program_nest(d).into_iter().map(|(n, p)| (n, p.into_bytes())).collect(),
             };
+            let maxb: usize = args.iter().position(|a| a == "--max-bytes").and_then(|i| args.get(i + 1)).and_then(|s| s.parse().ok()).unwrap_or(usize::MAX);
+            use std::io::Write;
+            let out = std::io::stdout();
+            let mut o = std::io::BufWriter::with_capacity(1 << 20, out.lock());
             for (n, b) in fam {
-                println!("{n}\t{d}\t{}", hexs(&b));
+                if b.len() <= maxb {
+                    let _ = writeln!(o, "{n}\t{d}\t{}", hexs(&b));
+                }
             }
         }
         return;
